@@ -134,6 +134,8 @@ def dict_get(d, k, default):
 def contains(x, c):
     """x in c"""
     tx = type(x)
+    if type(c) is SymSet:
+        return sor(*[x == e for e in c.items]) if c.items else False
     if tx is SymInt or tx is SymBool:
         if isinstance(c, range) and c.step == 1:
             return sand(x >= c.start, x < c.stop)
@@ -827,6 +829,73 @@ def call(f, *args, **kwargs):
     return f(*args, **kwargs)
 
 
+class SymSet:
+    """A set that holds symbolic members: membership and de-duplication are decided by (forking on) equality, not by hashing --
+    hashing a symbolic value would enumerate its values one path each."""
+
+    def __init__(self, items=()):
+        self.items = []
+        for x in items:
+            self.add(x)
+
+    @property
+    def __class__(self):
+        return set
+
+    def add(self, x):
+        for y in self.items:
+            if x == y:
+                return
+        self.items.append(x)
+
+    def update(self, *others):
+        for o in others:
+            for x in o:
+                self.add(x)
+
+    def __iter__(self):
+        return iter(list(self.items))
+
+    def __len__(self):
+        return len(self.items)
+
+    def __bool__(self):
+        return bool(self.items)
+
+    def __contains__(self, x):
+        return bool(sor(*[x == y for y in self.items])) if self.items else False
+
+    def __or__(self, o):
+        r = SymSet(self.items)
+        r.update(o)
+        return r
+
+    __ror__ = __or__
+
+    def __eq__(self, o):
+        o = list(o)
+        return len(o) == len(self.items) and all(x in self for x in o)
+
+    def __repr__(self):
+        return f"<symset len={len(self.items)}>"
+
+
+def setof(items):
+    """{x for ...} / set(iterable): a real set unless a member is symbolic."""
+    items = list(items)
+    if any(type(x) in (SymInt, SymBool, SymBytes, SymByteArray, SymStr) or (type(x) is tuple and any_sym(x, ())) for x in items):
+        return SymSet(items)
+    return set(items)
+
+
+def _m_set(*a):
+    return setof(a[0]) if a else set()
+
+
+MODELS[set] = _m_set
+MODELS[frozenset] = _m_set
+
+
 def fstr(*pieces):
     out, symbolic = [], False
     for p in pieces:
@@ -915,7 +984,7 @@ class Rewriter(ast.NodeTransformer):
     def visit_Call(self, node):
         self.generic_visit(node)
         # super() must stay a direct call (zero-arg form needs __class__ cell)
-        if isinstance(node.func, ast.Name) and node.func.id in ("super", "__sx_getitem__", "__sx_call__", "__sx_contains__", "__sx_ifexp__", "__sx_fstr__", "locals", "globals", "vars"):
+        if isinstance(node.func, ast.Name) and node.func.id in ("super", "__sx_getitem__", "__sx_call__", "__sx_contains__", "__sx_ifexp__", "__sx_fstr__", "__sx_setof__", "locals", "globals", "vars"):
             return node
         return ast.copy_location(ast.Call(self._name("__sx_call__"), [node.func, *node.args], node.keywords), node)
 
@@ -927,6 +996,11 @@ class Rewriter(ast.NodeTransformer):
                 c = ast.Call(self._name("__sx_not__"), [c], [])
             return ast.copy_location(c, node)
         return node
+
+    def visit_SetComp(self, node):
+        self.generic_visit(node)
+        lst = ast.ListComp(elt=node.elt, generators=node.generators)
+        return ast.copy_location(ast.Call(self._name("__sx_setof__"), [lst], []), node)
 
     def visit_JoinedStr(self, node):
         """f-strings: a symbolic text value interpolated without a format spec must stay symbolic text (not its placeholder repr)."""
@@ -993,6 +1067,7 @@ class _Loader(importlib.machinery.SourceFileLoader):
         module.__dict__["__sx_enter__"] = enter
         module.__dict__["__sx_ifexp__"] = ifexp
         module.__dict__["__sx_fstr__"] = fstr
+        module.__dict__["__sx_setof__"] = setof
         super().exec_module(module)
 
 
